@@ -284,8 +284,8 @@ def features(ast) -> list:
                     sub.add('r:esc-start')
                 elif hi_src[0] == '\\' and hi_src[1] in 'nrt':
                     sub.add('r:esc-end-nrt')
-                elif hi_src == '\\\\' and k + 1 < len(n[2]) and _part_src(n[2][k + 1])[:1] == '\\':
-                    sub.add('r:bs-end+esc')
+                elif hi_src == '\\\\' and k + 1 < len(n[2]) and _part_src(n[2][k + 1])[:1] in '\\|.^?*+{}()':
+                    sub.add('r:bs-end+esc')     # the next item is written as an escape or starts with a metacharacter
                 else:
                     ks = [_cc_kind(dec(p[1])), _cc_kind(dec(p[2]))]
                     kk = next((x for x in ('esc', 'meta', 'ws', 'na') if x in ks), '')
